@@ -21,17 +21,43 @@ def program_for(sc):
         lines.append("  start c%d" % k)
     lines += ["  match Never()", ""]
     for k, f in enumerate(sc["flows"]):
-        if f.get("loop"):
-            lines.append('@loop("%s")' % f["loop"])
-        lines.append("flow c%d" % k)
-        if f.get("priority"):
-            lines.append("  priority %s" % f["priority"])
+        levels = f.get("levels") or [f.get("priority")]
         args = ", ".join("p%d=%d" % (i, v) for i, v in sorted((int(i), v) for i, v in f["mentions"].items()))
-        lines.append("  match Ev(%s)" % args)
-        lines.append('  start UtteranceBotAction(script="%s")' % f["action"])
-        lines.append("  match Hold()")
-        lines.append("")
+        for li, prio in enumerate(levels):
+            name = "c%d" % k if li == 0 else "c%di%d" % (k, li)
+            if li == 0 and f.get("loop"):
+                lines.append('@loop("%s")' % f["loop"])
+            lines.append("flow %s" % name)
+            if prio:
+                lines.append("  priority %s" % prio)
+            if li == len(levels) - 1:
+                lines.append("  match Ev(%s)" % args)
+            else:
+                # the event is matched further down: every level adds one match (FlowFinished of the level below) to the chain
+                lines.append("  await c%di%d" % (k, li + 1))
+            if li == 0:
+                lines.append('  start UtteranceBotAction(script="%s")' % f["action"])
+                lines.append("  match Hold()")
+            lines.append("")
     return "\n".join(lines)
+
+
+def chain_of(f, m):
+    """Matching-score chain of a competitor, innermost match first (documented in more-on-flows.rst): the event match scores
+    0.9^(parameters of the event the pattern does not mention), every further level matches the FlowFinished of the level
+    below perfectly (1.0); each match is multiplied by the priority of the flow that makes it."""
+    levels = f.get("levels") or [f.get("priority")]
+    chain = []
+    for li in range(len(levels) - 1, -1, -1):
+        s = Fraction(9, 10) ** (m - len(f["mentions"])) if li == len(levels) - 1 else Fraction(1)
+        if levels[li]:
+            s *= Fraction(levels[li])
+        chain.append(s)
+    return tuple(chain)
+
+
+def padded(chain, n):
+    return tuple(chain) + (Fraction(1),) * (n - len(chain))
 
 
 class C05(InterpProp):
@@ -41,7 +67,7 @@ class C05(InterpProp):
     rule = ("one scenario = 2-6 flows waiting for the same event with 1-4 parameters; each flow mentions a subset of the parameters (specificity), optionally a priority in {0.9, 0.5, 0.1}, sits in the parent loop, "
             "loop A, loop B or a NEW loop, starts a distinct or a shared action; some flows mention a wrong value (must stay untouched). It is executed once per forced tie-break pick (0..n-1, n = size of the largest group). "
             "evaluations = executions; non-trivial = competitions with >= 2 matching flows in one loop and different actions; distinct = distinct (specificity/priority/loop/action vector, pick)")
-    expected_probes = ["tie_set_of_2plus", "every_tie_member_won", "shared_action_co_winners", "independent_loops", "non_matching_flow_untouched", "priority_decided"]
+    expected_probes = ["chains_of_different_length", "tie_set_of_2plus", "every_tie_member_won", "shared_action_co_winners", "independent_loops", "non_matching_flow_untouched", "priority_decided"]
     exhaustive_parts = ["every outcome of the tie-break (pick 0..n-1) for every generated competition"]
     quick_runs = 4000
     thorough_runs = 400000
@@ -60,7 +86,9 @@ class C05(InterpProp):
                 i = str(d.randint(0, m - 1, "wrongi", k))
                 mentions[i] = actual[i] + 5
             shared = d.chance(0.3, "shared", k)
-            flows.append({"mentions": mentions, "priority": d.choice(PRIORITIES, "prio", k), "loop": d.choice(LOOPS, "loop", k),
+            depth = d.weighted([(1, 5), (2, 3), (3, 2)], "depth", k)
+            levels = [d.choice(PRIORITIES, "prio", k)] + [d.choice(PRIORITIES, "lprio", k, li) for li in range(1, depth)]
+            flows.append({"mentions": mentions, "priority": levels[0], "levels": levels, "loop": d.choice(LOOPS, "loop", k),
                           "action": "shared" if shared else "a%d" % k, "matches": not wrong})
         return {"m": m, "actual": actual, "flows": flows}
 
@@ -100,10 +128,9 @@ class C05(InterpProp):
         score = {}
         for k, f in enumerate(flows):
             if f["matches"]:
-                s = Fraction(9, 10) ** (m - len(f["mentions"]))
-                if f.get("priority"):
-                    s *= Fraction(f["priority"])
-                score[k] = s
+                score[k] = chain_of(f, m)
+        maxlen = max([len(c) for c in score.values()] + [1])
+        score = {k: padded(c, maxlen) for k, c in score.items()}  # compared left to right, a missing position counts as 1.0
         groups = {}
         for k in score:
             lp = flows[k].get("loop")
@@ -133,13 +160,15 @@ class C05(InterpProp):
                 T = [k for k in members if score[k] == top]
                 if len(T) >= 2:
                     out.probe("tie_set_of_2plus")
-                if any(flows[k].get("priority") for k in members) and len(members) >= 2:
+                if any(any(flows[k].get("levels") or [flows[k].get("priority")]) for k in members) and len(members) >= 2:
                     out.probe("priority_decided")
+                if len(set(len(chain_of(flows[k], m)) for k in members)) >= 2:
+                    out.probe("chains_of_different_length")
                 # which flows of this group proceeded (now parked on `match Hold()`), which failed
                 proceeded = [k for k in members if after.get("c%d" % k, ("?",))[0] == "STARTED" and after["c%d" % k][1] != before["c%d" % k][1]]
                 failed = [k for k in members if after.get("c%d" % k, ("?",))[0] == "STOPPED"]
                 actions = set(flows[k]["action"] for k in proceeded)
-                desc = "loop %s, flows %s (scores %s), tie-break pick %d" % (key, ["c%d:%s" % (k, flows[k]["action"]) for k in members], [str(score[k]) for k in members], pick)
+                desc = "loop %s, flows %s (score chains %s), tie-break pick %d" % (key, ["c%d:%s" % (k, flows[k]["action"]) for k in members], ["/".join(str(x) for x in chain_of(flows[k], m)) for k in members], pick)
                 if len(actions) != 1:
                     out.violate("not-exactly-one-action", "%d-actions" % len(actions), "%s: flows %r proceeded with actions %r" % (desc, proceeded, sorted(actions)))
                     continue
@@ -162,7 +191,7 @@ class C05(InterpProp):
                     if k in T:
                         winners_seen[key].add(k)
                 if len(members) >= 2 and len(set(flows[k]["action"] for k in members)) >= 2:
-                    out.nontrivial_sigs.append((tuple((len(flows[k]["mentions"]), flows[k].get("priority"), flows[k].get("loop"), flows[k]["action"] == "shared") for k in members), pick))
+                    out.nontrivial_sigs.append((tuple((len(flows[k]["mentions"]), tuple(flows[k].get("levels") or [flows[k].get("priority")]), flows[k].get("loop"), flows[k]["action"] == "shared") for k in members), pick))
             # non-matching flows are left untouched
             for k, f in enumerate(flows):
                 if not f["matches"]:
@@ -181,15 +210,25 @@ class C05(InterpProp):
                 out.probe("every_tie_member_won")
         out.digest = tr.digest()
         out.interleaving = tuple(sorted((str(k), tuple(v)) for k, v in groups.items()))
-        out.sample = {"event": {"type": "Ev", **{"p%s" % i: v for i, v in sc["actual"].items()}}, "flows": flows, "groups": {str(k): v for k, v in groups.items()}, "scores": {("c%d" % k): str(v) for k, v in score.items()}, "picks_executed": out.evaluations}
+        out.sample = {"event": {"type": "Ev", **{"p%s" % i: v for i, v in sc["actual"].items()}}, "flows": flows, "groups": {str(k): v for k, v in groups.items()}, "score_chains": {("c%d" % k): [str(x) for x in chain_of(flows[k], m)] for k in score}, "picks_executed": out.evaluations}
         return out
 
     def shrink(self, sc):
         for k, f in enumerate(sc["flows"]):
-            for key in ("priority", "loop"):
-                if f.get(key):
+            if f.get("loop"):
+                c = copy.deepcopy(sc)
+                c["flows"][k]["loop"] = None
+                yield c
+            levels = f.get("levels") or [f.get("priority")]
+            if len(levels) > 1:
+                c = copy.deepcopy(sc)
+                c["flows"][k]["levels"] = levels[:-1]
+                yield c
+            for li, pr in enumerate(levels):
+                if pr:
                     c = copy.deepcopy(sc)
-                    c["flows"][k][key] = None
+                    c["flows"][k]["levels"] = levels[:li] + [None] + levels[li + 1:]
+                    c["flows"][k]["priority"] = c["flows"][k]["levels"][0]
                     yield c
 
     def same_class(self, a, b):
